@@ -188,6 +188,7 @@ def c04(rec, tier):
     f3_flow.run(rec, F, S)
     f4_exc.run(rec, F)
     f12_order.dead_handlers_after_pop(rec, F)
+    f12_order.unconditional_duties(rec, F, ("stack-depth",))
     f12_order.try_depth_source(rec, F)
     f4_exc.run_native_env(rec, F, S)
     f4_vm.synthetic_call_protocol(rec, F)
@@ -216,6 +217,7 @@ def c13(rec, tier):
     S = SY(rec)
     f4_cache.run(rec, F)
     f4_cache.fill_depends_on_key_only(rec, F)
+    f4_cache.class_layout_frozen(rec, F)
     f2_emit.run_slots(rec, S)
     f2_emit.run_fixed_index(rec, S)
     f2_emit.run_known_class_receiver(rec, S)
@@ -234,6 +236,7 @@ def c06(rec, tier):
     f3_flow.run(rec, F, S)
     # handlers on the fiber = try blocks the running code is inside of: nesting records, depths, dead handlers
     f2_emit.run_scoped_state(rec, S)
+    f12_order.unconditional_duties(rec, F, ("stack-depth",))
     f12_order.try_depth_source(rec, F)
     f12_order.dead_handlers_after_pop(rec, F)
     f2_emit.run_constant_kinds(rec, S, F)
@@ -373,6 +376,7 @@ def c16(rec, tier):
     # forwarded-write discipline are necessary here too
     f5_trace.run(rec, F)
     f10_parity.run_forwarded_writes(rec, F)
+    f4_cache.class_layout_frozen(rec, F)
     f4_exc.run_native_env(rec, F, S)
     f9_casts.run_bounds_checks(rec, F)
     # sentinel tests (x == VALUE_UNDEFINED) guard host panics
@@ -383,6 +387,7 @@ def c16(rec, tier):
 def c17(rec, tier):
     F = D(rec)
     f4_vm.run_c17(rec, F)
+    f4_cache.class_layout_frozen(rec, F)   # an importer's module object has a slot for every export its class names
     f1_isa.run_rewind(rec, F)
     # the module tables are keyed by interned strings compared by address: keys and modules must be GC roots
     f5_trace.run(rec, F, only_adts=("laythe_vm::vm::Vm", "laythe_core::module::Module", "laythe_core::module::package::Package"), only_fields=("module_cache", "packages", "modules", "symbols", "symbols_by_name", "exports", "module_class", "path", "name", "module"))
@@ -482,13 +487,13 @@ META = {
         "design_ref": "DESIGN.md §3 C04",
     },
     "C12": {
-        "text": "Rule-table verification of the optimiser by abstract execution of the VecCursor operations of all 15 window arms and 6 rewrites on a symbolic window: code and line cursors advance in lock step on every path (lines stay attached); what is consumed is the matched prefix or a run of the matched instruction; stack effect consumed = stack effect written (from the ISA tables); patterns name concrete variants and runs stop at Label; written operands are the pattern's bindings; store/reload elimination is guarded by slot equality on twin ops; dead-code removal only after instructions whose handlers have no fall-through path; fused invokes keep their cache slot. These are necessary conditions of semantic preservation; full observational equivalence of a same-effect/same-operand replacement with a different opcode is declined.",
+        "text": "Rule-table verification of the optimiser by abstract execution of the VecCursor operations of all window arms and rewrites on a symbolic window: code and line cursors advance in lock step on every path (lines stay attached); what is consumed is the matched prefix or a run of the matched instruction; stack effect consumed = stack effect written (from the ISA tables); patterns name concrete variants and runs stop at Label; written operands are the pattern's bindings; store/reload elimination is guarded by slot equality on twin ops; dead-code removal only after instructions whose handlers have no fall-through path; fused invokes keep their cache slot. These are necessary conditions of semantic preservation; full observational equivalence of a same-effect/same-operand replacement with a different opcode is declined. Added in round 4: (P7) what a rewrite writes is the consumed prefix, a row of the fusion table (each read against the handlers) or a negated (in)equality - a negated ordering comparison is refuted with the NaN case, an unknown replacement fails closed; Compiler::call emits ArgumentDelimiter per argument unconditionally (the fusion windows rely on it).",
         "note": "Loop bodies are summarised as k iterations with a constant per-iteration delta; constructs outside that model are listed as unanalysed and the analysed-arm floor fails closed.",
         "technique": "static analysis: abstract interpretation of cursor operations over the syntax tree (symbolic window, linear forms in loop counts)",
         "design_ref": "DESIGN.md §3 C12, §2 F11",
     },
     "C13": {
-        "text": "In every cache-using handler the probed class is the filled class with the instruction's single slot operand; the cached payload was looked up on that class with the instruction's own name operand; every normally-ending path hits, fills or clears the slot (shadowing paths clear); lookups return their payload only on class equality; cache-using instructions are always followed by their slot pseudo-op; cache coverage for re-compiled modules; cache entries hold raw class pointers so the cache must be a GC root or be invalidated by collection (F5 on Vm). Hits are taken only on the class-equality edge and the fill stores the looked-up payload (hit-vs-fill); fixed-index property instructions are only emitted for a receiver whose class is statically known to be the enclosing class (F2.f-recv). Behaviour over receiver histories is declined.",
+        "text": "In every cache-using handler the probed class is the filled class with the instruction's single slot operand; the cached payload was looked up on that class with the instruction's own name operand; every normally-ending path hits, fills or clears the slot (shadowing paths clear); lookups return their payload only on class equality; cache-using instructions are always followed by their slot pseudo-op; cache coverage for re-compiled modules; cache entries hold raw class pointers so the cache must be a GC root or be invalidated by collection (F5 on Vm). Hits are taken only on the class-equality edge and the fill stores the looked-up payload (hit-vs-fill); fixed-index property instructions are only emitted for a receiver whose class is statically known to be the enclosing class (F2.f-recv). Behaviour over receiver histories is declined. Round 4: a class gains fields only while under construction (F4.cache-layout; Module::export_symbol is the open finding #54).",
         "note": "Structural clauses only.",
         "technique": "static analysis: MIR root-identity/def-use + path dataflow; syntax adjacency for slot pairing",
         "design_ref": "DESIGN.md §3 C13",
@@ -500,13 +505,13 @@ META = {
         "design_ref": "DESIGN.md §3 C06, §2 F1",
     },
     "C07": {
-        "text": "Necessary structural conditions of exactly-once FIFO delivery decided on ChannelQueue and the two VM handlers: the buffer is mutated only by send's push_back(val) and receive's pop_front; every enqueue is control-dependent on the strict len<capacity test or on (sync && empty) and on the Ready state; the closed protocol of close()/receive; views share the buffer and respect their direction; per result variant the queue moved the value XOR the handler rewinds and re-pushes. A sync channel hands over at most one value per rendezvous and parks the sender until it is taken (F4.chan-sync/F4.chan-park); the channel's Trace impl reaches the queue, both waiter sets and every buffered value (F5). Decides these clauses, not ordering across interleavings of several senders/receivers. The wake-up search precedes parking (F4.wake), destructive dequeues stay lazy (F12.lazy-dequeue), a completing fiber clears its waiter's runnable flag (F12.complete-flag).",
+        "text": "Necessary structural conditions of exactly-once FIFO delivery decided on ChannelQueue and the two VM handlers: the buffer is mutated only by send's push_back(val) and receive's pop_front; every enqueue is control-dependent on the strict len<capacity test or on (sync && empty) and on the Ready state; the closed protocol of close()/receive; views share the buffer and respect their direction; per result variant the queue moved the value XOR the handler rewinds and re-pushes. A sync channel hands over at most one value per rendezvous and parks the sender until it is taken (F4.chan-sync/F4.chan-park); the channel's Trace impl reaches the queue, both waiter sets and every buffered value (F5). Decides these clauses, not ordering across interleavings of several senders/receivers. The wake-up search precedes parking (F4.wake), destructive dequeues stay lazy (F12.lazy-dequeue), a completing fiber clears its waiter's runnable flag (F12.complete-flag). Round 4: a waiting result (Full/FullBlock/Empty/EmptyBlock) is built only after the unconditional append of the waiter (F4.chan-register); the capacity bound is the channel's own capacity, not the ring's.",
         "note": "Trusts VecDeque's FIFO semantics; rewind width/stack neutrality are decided by F1.r (C06).",
         "technique": "static analysis: who-may-write on a field, dominating-guard extraction, per-variant path effects on MIR",
         "design_ref": "DESIGN.md §3 C07",
     },
     "C08": {
-        "text": "Scheduler shape decided over all VM code: one deadlock emission site under (ContextSwitch && fiber_queue empty); every ContextSwitch is preceded on all paths by exactly one block/sleep/complete and every park is followed by ContextSwitch; every parking arm first tries to wake a waiter; no created fiber is orphaned; complete() prefers a pending parent; every channel state change registers the channel with the acting fiber or wakes a waiter (findability). The run queue is FIFO (push_back/pop_front, F4.runq); closing a channel wakes every waiter and a woken fiber re-executes its instruction (F4.closed-wake). Decides these clauses, not liveness over all topologies. Destructive dequeues stay lazy (F12.lazy-dequeue); a completing fiber clears its waiter's runnable flag on every path (F12.complete-flag, partial evaluation).",
+        "text": "Scheduler shape decided over all VM code: one deadlock emission site under (ContextSwitch && fiber_queue empty); every ContextSwitch is preceded on all paths by exactly one block/sleep/complete and every park is followed by ContextSwitch; every parking arm first tries to wake a waiter; no created fiber is orphaned; complete() prefers a pending parent; every channel state change registers the channel with the acting fiber or wakes a waiter (findability). The run queue is FIFO (push_back/pop_front, F4.runq); closing a channel wakes every waiter and a woken fiber re-executes its instruction (F4.closed-wake). Decides these clauses, not liveness over all topologies. Destructive dequeues stay lazy (F12.lazy-dequeue); a completing fiber clears its waiter's runnable flag on every path (F12.complete-flag, partial evaluation). Round 4: F4.chan-register (a parked fiber is always registered with the queue it waits on).",
         "note": "Wake-ups are lazy in Laythe (found via the acting fiber's used-channel list); the findability clause encodes that design.",
         "technique": "static analysis: path-sensitive dataflow over MIR CFGs, dominance / post-dominance, call-graph who-may-call",
         "design_ref": "DESIGN.md §3 C08",
@@ -518,7 +523,7 @@ META = {
         "design_ref": "DESIGN.md §3 C15",
     },
     "C10": {
-        "text": "Forwarding contradiction decided structurally: a relocation mechanism exists (mark_moved reached only from List::grow) and List == List resolves the forwarding pointer, while Value == Value / Hash for Value compare the raw address; every native that grows its receiver list tests has_moved and rescans the roots on that edge. Alias visibility across containers as a history property is declined. Block writes of List methods only on the Here arm of the receiver's own state() (F10.fwd-write); scan_roots rewrites the whole value stack (F10.scan-all); values copied out of args before scan_roots are not compared after it (F10.stale); equal values hash equal (F10.eq); the relocating vector's Trace clauses (F5.p). state()/relocated_vector() answer with the next hop while Trace recurses hop by hop (F12.fwd-hop).",
+        "text": "Forwarding contradiction decided structurally: a relocation mechanism exists (mark_moved reached only from List::grow) and List == List resolves the forwarding pointer, while Value == Value / Hash for Value compare the raw address; every native that grows its receiver list tests has_moved and rescans the roots on that edge. Alias visibility across containers as a history property is declined. Block writes of List methods only on the Here arm of the receiver's own state() (F10.fwd-write); scan_roots rewrites the whole value stack (F10.scan-all); values copied out of args before scan_roots are not compared after it (F10.stale); equal values hash equal (F10.eq); the relocating vector's Trace clauses (F5.p). state()/relocated_vector() answer with the next hop while Trace recurses hop by hop (F12.fwd-hop). Round 4: Vm::scan_roots reaches the stack scan on every path (F12.duty).",
         "note": "Decides the structural necessary condition only.",
         "technique": "static analysis: call-graph reachability + dominating-guard extraction on MIR",
         "design_ref": "DESIGN.md §3 C10",
@@ -536,13 +541,13 @@ META = {
         "design_ref": "DESIGN.md §3 C11",
     },
     "C16": {
-        "text": "Crash-freedom clauses decided over all 130 natives and all VM code: every unchecked cast (Value::to_num/to_bool/to_obj, ObjectRef::to_*) on an argument, callback result, iterator value, stack operand or element of a user object is justified by the declared ParameterKind, a dominating kind test, or a named compiler-provenance site; constant indices into args stay below the declared arity's minimum; call_native checks the signature first and the three signature testers agree; is_valid's table; superclass admissibility (receiver soundness); guarded slices of constant arrays; frame-limit guard dominates every push_frame; kind<->cast tables (F6). Declared arity covers every args[i] the body reads (F9.a coverage); library indexing is guarded (F9.x); sizes taken from user numbers are range-checked before a cast or allocation (F9.size); no reachable todo!/unimplemented! on an input-dependent path (F4.todo). An Exit signal that comes straight back from resolve_call (a native used as a callback) is propagated, not sent to internal_error (F4.hook-exit); the frame-limit test may live in push_frame if every caller looks at its signal (F4.frames); a recursive walk with a moving index reads the slice at that index (F9.cursor).",
+        "text": "Crash-freedom clauses decided over all 130 natives and all VM code: every unchecked cast (Value::to_num/to_bool/to_obj, ObjectRef::to_*) on an argument, callback result, iterator value, stack operand or element of a user object is justified by the declared ParameterKind, a dominating kind test, or a named compiler-provenance site; constant indices into args stay below the declared arity's minimum; call_native checks the signature first and the three signature testers agree; is_valid's table; superclass admissibility (receiver soundness); guarded slices of constant arrays; frame-limit guard dominates every push_frame; kind<->cast tables (F6). Declared arity covers every args[i] the body reads (F9.a coverage); library indexing is guarded (F9.x); sizes taken from user numbers are range-checked before a cast or allocation (F9.size); no reachable todo!/unimplemented! on an input-dependent path (F4.todo). An Exit signal that comes straight back from resolve_call (a native used as a callback) is propagated, not sent to internal_error (F4.hook-exit); the frame-limit test may live in push_frame if every caller looks at its signal (F4.frames); a recursive walk with a moving index reads the slice at that index (F9.cursor). Round 4: trace completeness (F5), the forwarded-write discipline and F4.cache-layout are part of this check; natives on a stub frame get a copy of their arguments.",
         "note": "Reachability of the ~40 'impossible state' internal_error sites is declined.",
         "technique": "static analysis: dominance + taint on MIR",
         "design_ref": "DESIGN.md §3 C16",
     },
     "C17": {
-        "text": "Export gate: every Module method through which the import handlers obtain symbol values consults Module.exports; module_instance iterates exports; get_exported_symbol_by_name returns Some only under exports.contains. Once-only: compile-and-run only on ModuleDoesNotExist, every Compiled result has passed insert_module of the same module, the importer sleeps as parent of the queued child. The module cache value stored is the inserted module itself and the cache is only written after a successful insert (F4.once); module symbol/export/module tables are traced (F5). The module-cache key covers every element of the import path including what the producers of its input take off (F4.once-key); the nested-module walk indexes the path by its depth (F9.cursor).",
+        "text": "Export gate: every Module method through which the import handlers obtain symbol values consults Module.exports; module_instance iterates exports; get_exported_symbol_by_name returns Some only under exports.contains. Once-only: compile-and-run only on ModuleDoesNotExist, every Compiled result has passed insert_module of the same module, the importer sleeps as parent of the queued child. The module cache value stored is the inserted module itself and the cache is only written after a successful insert (F4.once); module symbol/export/module tables are traced (F5). The module-cache key covers every element of the import path including what the producers of its input take off (F4.once-key); the nested-module walk indexes the path by its depth (F9.cursor). Round 4: F4.cache-layout - an importer's module object has a slot for every export its class names (open finding #54: circular import).",
         "note": "Behaviour over arbitrary import graphs is declined; rewind widths are decided by F1.r.",
         "technique": "static analysis: call-graph + field-read analysis + dominance on MIR",
         "design_ref": "DESIGN.md §3 C17",
@@ -560,19 +565,19 @@ META = {
         "design_ref": "DESIGN.md §3 C19",
     },
     "C05": {
-        "text": "Structural necessary conditions of GC safety decided over all code: every gc-bearing field of every Trace/TraceRoot impl is traced (F5), raw-pointer holders perform their trace steps on every path (F5.p), kind<->type<->cast tables agree (F6), temp roots balance on every path (F7), GC phases are ordered and the object being allocated is rooted during the collection it triggers (F4). A generic container's trace reaches Trace::trace for every type parameter it stores (F5.g); fresh handles are not held across a collection point in Rust locals, native struct fields or eagerly accumulating iterator closures (F8/F8.c); list growth leaves a forwarding pointer in the old allocation (F6.moved). The GC rules are evaluated on the default and on the gc_stress build's MIR. Decides these clauses, not schedule-independence of program output. Element structs traced by hand hand on every gc-bearing field (F5.e); nothing is marked after the intern table is swept (F4.gc-mark-before-evict); the eviction order is judged on the sweeps flattened into collect_garbage.",
+        "text": "Structural necessary conditions of GC safety decided over all code: every gc-bearing field of every Trace/TraceRoot impl is traced (F5), raw-pointer holders perform their trace steps on every path (F5.p), kind<->type<->cast tables agree (F6), temp roots balance on every path (F7), GC phases are ordered and the object being allocated is rooted during the collection it triggers (F4). A generic container's trace reaches Trace::trace for every type parameter it stores (F5.g); fresh handles are not held across a collection point in Rust locals, native struct fields or eagerly accumulating iterator closures (F8/F8.c); list growth leaves a forwarding pointer in the old allocation (F6.moved). The GC rules are evaluated on the default and on the gc_stress build's MIR. Decides these clauses, not schedule-independence of program output. Element structs traced by hand hand on every gc-bearing field (F5.e); nothing is marked after the intern table is swept (F4.gc-mark-before-evict); the eviction order is judged on the sweeps flattened into collect_garbage. Round 4: a native that runs on a stub frame gets an owned copy of its arguments (F8.native-args); a ranged view of a field does not count as tracing it; the intern sweep is unconditional (F12.duty).",
         "note": "Trusts rustc's MIR (nightly, -Zmir-opt-level=0) as the program; exception table of aliased fields in lyverif/rules/f5_trace.py (one named field + reason each); the rooting discipline of native code between allocations (F8) is only in the thorough tier and under-reports by design.",
         "technique": "static analysis: MIR dataflow (field->trace taint, post-dominators), table cross-check, path-sensitive balance",
         "design_ref": "DESIGN.md §3 C05, §2 F5-F8",
     },
     "C09": {
-        "text": "Strings are equal iff same address, so content equality holds iff every LyStr allocation goes through the intern funnel: decided as who-may-allocate (only a function that looks up first and inserts the managed string afterwards), who-may-write intern_cache, key derived from the managed bytes, eviction ordered after marking and before the sweeps, eviction keeps exactly the marked. The phase order is decided with the sweep helpers inlined and on both the default and the gc_stress configuration (where cfg'd early returns change the paths); Map's trace reaches its keys (F5.g). Nothing is marked after sweep_intern_cache in either collection entry point (F4.gc-mark-before-evict).",
+        "text": "Strings are equal iff same address, so content equality holds iff every LyStr allocation goes through the intern funnel: decided as who-may-allocate (only a function that looks up first and inserts the managed string afterwards), who-may-write intern_cache, key derived from the managed bytes, eviction ordered after marking and before the sweeps, eviction keeps exactly the marked. The phase order is decided with the sweep helpers inlined and on both the default and the gc_stress configuration (where cfg'd early returns change the paths); Map's trace reaches its keys (F5.g). Nothing is marked after sweep_intern_cache in either collection entry point (F4.gc-mark-before-evict). Round 4: the intern-table sweep runs on every collection path (F12.duty).",
         "note": "Trusts hashbrown's HashMap and that Value equality on objects is pointer equality (checked structurally in C10/C14 rules).",
         "technique": "static analysis: call-graph who-may-call + dominance/post-dominance + def-use on MIR",
         "design_ref": "DESIGN.md §3 C09",
     },
     "C20": {
-        "text": "Per ObjectKind the layout triple is identical at allocation, size() and dealloc (F6); sweeper closures count exactly retained objects (F10) and every collection unmarks each of the three heaps on every path (F10.sweep-cover); size accounting dominates every heap push and only allocators/sweepers touch the heaps; post-collection bytes_allocated is the sum of both sweeps and next_gc derives from it; temp roots balance on every path (a leaked root retains garbage forever); intern table evicts exactly the unmarked. ObjectHandle::size and Drop read their own block, never an accessor that follows a relocated list (F6.own-block); every collection unmarks each of the three heaps (F10.sweep-cover).",
+        "text": "Per ObjectKind the layout triple is identical at allocation, size() and dealloc (F6); sweeper closures count exactly retained objects (F10) and every collection unmarks each of the three heaps on every path (F10.sweep-cover); size accounting dominates every heap push and only allocators/sweepers touch the heaps; post-collection bytes_allocated is the sum of both sweeps and next_gc derives from it; temp roots balance on every path (a leaked root retains garbage forever); intern table evicts exactly the unmarked. ObjectHandle::size and Drop read their own block, never an accessor that follows a relocated list (F6.own-block); every collection unmarks each of the three heaps (F10.sweep-cover). Round 4: the intern-table sweep runs on every collection path (F12.duty).",
         "note": "Decides structural accounting clauses, not the quantitative boundedness claim.",
         "technique": "static analysis: generic-argument cross-check of layout calls, sibling-closure comparison, def-use, path-sensitive balance on MIR",
         "design_ref": "DESIGN.md §3 C20",
